@@ -760,7 +760,7 @@ func (ev *Eval) callExpr(n *ast.CallExpr) Value {
 		if !ok {
 			ev.fail("has(map, key)")
 		}
-		return &Prim{T: x.mapHas(ev.st, m, ev.term(n.Args[1]))}
+		return &Prim{T: And(Not(Eq(m.Ref, TZero)), x.mapHas(ev.st, m, ev.term(n.Args[1])))}
 	case "callres":
 		// callres("callee key", n [, i]): i-th result of the n-th call of callee on this path
 		s, _ := strconv.Unquote(exprString(n.Args[0]))
